@@ -277,6 +277,10 @@ def set_block(a, ts=(), Ds=None, val='zeros'):
         Otherwise any tensor-like format such as nested list, numpy.ndarray, etc.,
         can be used provided it is supported by :doc:`tensor's backend </tensor/configuration>`.
     """
+    if a.trans != tuple(range(a.ndim_n)):  # ts, Ds and val follow the order of tensor legs; enforce a pending transpose first
+        c = a.consume_transpose()
+        a.struct, a.slices, a.hfs, a._data, a._trans = c.struct, c.slices, c.hfs, c._data, c._trans
+
     ts = np.array(ts, dtype=np.int64).ravel()
     if a.isdiag and len(ts) == a.config.sym.NSYM:
         ts = np.hstack([ts, ts])
